@@ -486,7 +486,8 @@ def kind_of(o):
     return 'StructInstance'
 def accepts(t, base): return t == 'Any' or t == base or (t == 'Number' and base in ('Int', 'Rational', 'Float', 'Complex')) or (t == 'Func' and base == 'Type')
 TYPED_STMTS = {
-    'Int': ['x = y', 'x = [y]', 'x = null', 'x = z', 'x += y', 'x -= y', 'x, z = z, x', 'swap x, z', 'x, w = [y, 2]', 'x, w = [[y], 2]', 'every x, w = y', 'every x, w = [y]', 'x = (x = [1]; 5)'],
+    'Int': ['x = y', 'x = [y]', 'x = null', 'x = z', 'x += y', 'x -= y', 'x, z = z, x', 'swap x, z', 'x, w = [y, 2]', 'x, w = [[y], 2]', 'every x, w = y', 'every x, w = [y]', 'x = (x = [1]; 5)',
+            'x /= 2', 'every x /= 2', 'every x += y', 'every x, w /= 2'],          # 3 / 2 is a rational: an int-typed variable must refuse it
     'List': ['x = y', 'x = [y]', 'x = null', 'x = z', 'x[0] = y', 'x[0] = [y]', 'x[y] = 1', 'every x[0:2] -= y', 'every x[0:2] = null', 'x append= y', 'x, z = z, x', 'swap x, z', 'swap x[0], z', 'pop x'],          # (`consume x` leaves null by definition and is not in the property's list)
     'Stream': ['x = y', 'x = [y]', 'x = z', 'x[0] = y', 'every x[0:2] -= y', 'every x[0:2] = 7', 'x, z = z, x', 'swap x, z'],
     'Number': ['x = y', 'x = [y]', 'x = null', 'x += y', 'x, z = z, x'],
@@ -507,7 +508,7 @@ def shape_typed(item, ob):
     def run():
         E.assume(in_i64(Yv))
         env = evalh.top_env({'x': (otype(tname), val(x0)), 'y': evalh.num(Yv), 'z': val(zkind), 'w': evalh.num(z3.IntVal(0))},
-                            builtins=('+', '-', '*', '<', '>', '==', 'append'))
+                            builtins=('+', '-', '*', '/', '<', '>', '==', 'append'))
         holder['env'] = env
         r = evalh.run_program(E, ast, env)
         return r, evalh.get_var(env, 'x')
